@@ -1,4 +1,4 @@
-import KsiVerif.Proofs.CrcStraddle
+import KsiVerif.Proofs.SymbolWindow
 /-!
 # C17 — publication strings round-trip; every single-symbol corruption is rejected
 
@@ -172,9 +172,26 @@ theorem straddle_accepts_only_if (pre mid e d : Bytes) (hl : e.length = mid.leng
     e.foldl crcStep 0 = beNat d :=
   tail_and_field_error pre mid e d hl hd h
 
+/-- **A replaced symbol changes exactly its own five bits** (first half of the step from "symbol
+k of the string" to "these octets of the binary"): replacing a character that contributes the
+bits of `v` by one that contributes those of `v'` changes the bit string `KSI_base32Decode`
+accumulates in one five-bit window at a multiple of five — or leaves it as it was when the
+position lies behind an `=`.  Dashes, ignored digits and case play no part: the statement is
+about any prefix `p` and suffix `q`.  The second half (five bits at 5k lie in at most two
+consecutive octets, or in the dropped tail) is not proved; it is covered per string by the
+exhaustive substitution run. -/
+theorem replaced_symbol_changes_five_bits (v v' : Nat) (c c' : UInt8)
+    (hc : classify c = .bits v) (hc' : classify c' = .bits v') (p q : List UInt8) (bits : List Bool)
+    (h : decodeBits (p ++ c :: q) = .ok bits) :
+    decodeBits (p ++ c' :: q) = .ok bits ∨
+    ∃ A B, bits = A ++ fiveBits v ++ B ∧ decodeBits (p ++ c' :: q) = .ok (A ++ fiveBits v' ++ B) ∧
+      A.length % 5 = 0 :=
+  decodeBits_subst v v' c c' hc hc' p q bits h
+
 /-! Non-vacuity: a concrete SHA-256 publication meets the hypotheses of `pub_roundtrip`. -/
 example : Gen.hashValid 1 = true ∧ Gen.hashLen 1 = 32 ∧ 0 < Gen.hashLen 1 := by decide
 example : ∃ x ∈ ([0x10, 0x00] : Bytes), x ≠ 0 := ⟨0x10, by simp, by decide⟩
+example : classify 65 = .bits 0 ∧ classify 55 = .bits 31 := by decide
 example : ¬ ((0x03 : UInt8) = 0 ∧ (0xC0 : UInt8) = 0 ∧ (0 : UInt8) = 0) := by decide
 
 end KsiVerif.Props.C17
